@@ -15,6 +15,7 @@ from mc.engine import ok, bad, unspecified
 from mc.common import call, Raised, DimArray, Dataset, Axis, py, same_scalar, same_list
 
 ID = "C18"
+OEO = ("decoy",)   # decoy pre-pass only (engine.safe_check): this check edits its array in place itself, so the generic second pass does not apply
 VARIANT_SWEEP = True      # thorough tier: every case on every history variant of its array (see mc/domains.py VSHIFT)
 TITLE = "interp_axis is per-fibre linear interpolation"
 RULE = ("product of (float/int arrays 1-4D, interpolated axis at every position, numeric labels increasing / decreasing / every shuffle of "
